@@ -47,6 +47,7 @@ structure Tables where
   descRaw : Bool
   toolOmitsDirectives : Bool
   assureOnce : Bool
+  dupKeyOverwrites : Bool
   maxParseDepth : Option Nat
   unionFirstCome : Bool
   ifaceNeedsBound : Bool
